@@ -557,10 +557,10 @@ def run(rep, program: Program, tier: str) -> None:
     )
     rep.assumptions = ["stage lengths partition the iterations (C16-R1)", "equality of recorded numbers with states at run time is not decided"]
     et = ExcTypes(program)
-    rule_r1(rep, program)
-    rule_r2(rep, program, et)
-    rule_r3(rep, program)
-    rule_r4(rep, program)
+    rep.isolate(rule_r1, rep, program)
+    rep.isolate(rule_r2, rep, program, et)
+    rep.isolate(rule_r3, rep, program)
+    rep.isolate(rule_r4, rep, program)
     from . import c14
 
-    c14.rule_r3(rep, program, prop=PROP, rule="R5")
+    rep.isolate(c14.rule_r3, rep, program, prop=PROP, rule="R5")
